@@ -452,16 +452,25 @@ def oracle_concurrent_rows(ctx, tsc):
     for g in (6, 9, 12, 13, 24, 48):
         for nthread in (2, 4, 8):
             for npart in (None, 2, 4, g // 3):
-                configs.append((g, nthread, npart, int(rng.integers(0, 3)), float(rng.choice([0.0, 0.5]))))
+                configs.append((g, nthread, npart, int(rng.integers(0, 3)), float(rng.choice([0.0, 0.5])), False))
+    # wrap=True with particles up to a whole box outside [0, Box): the periodic wrap must happen BEFORE the particles are
+    # assigned to stripes, otherwise a stripe writes rows far from its own
+    for g in (12, 24, 48):
+        for nthread in (2, 4, 8):
+            configs.append((g, nthread, None, int(rng.integers(0, 3)), float(rng.choice([0.0, 0.5])), True))
+            configs.append((g, nthread, 4, int(rng.integers(0, 3)), 0.0, True))
     try:
-        for g, nthread, npart, coord, offc in configs:
+        for g, nthread, npart, coord, offc, wrap in configs:
             lat, ties = particle_positions(g)
             xs = np.array(sorted(set(lat[::2] + ties)))
+            if wrap:
+                xs = np.concatenate([xs - g, xs, xs[xs < g] + g])
             pos = np.zeros((len(xs), 3))
             pos[:, coord] = xs
             shape = [2, 2, 2]
             shape[coord] = g
-            case = {'kind': 'concurrent-rows', 'g': g, 'nthread': nthread, 'npartition': npart, 'coord': coord, 'offset_cells': offc}
+            case = {'kind': 'concurrent-rows', 'g': g, 'nthread': nthread, 'npartition': npart, 'coord': coord, 'offset_cells': offc,
+                    'wrap': wrap}
             ctx.case(case, nontrivial=True)
             ctx.count('oracle:concurrent-rows configurations')
             rec = []
@@ -469,7 +478,7 @@ def oracle_concurrent_rows(ctx, tsc):
             tsc._tsc_parallel = lambda ppart, starts, dens, box, weights, offset: rec.append((ppart.copy(), np.array(starts), offset))
             try:
                 tsc.tsc_parallel(pos.copy(), np.zeros(shape), float(g), nthread=nthread, npartition=npart, coord=coord,
-                                 offset=offc, wrap=False)
+                                 offset=offc, wrap=wrap)
             except ValueError:
                 ctx.count('oracle:concurrent-rows rejected')
                 continue
@@ -540,6 +549,9 @@ def gen_whole(ctx):
         cases.append(dict(kind='whole', shape=shape, coord=coord, nthread=nthread, npartition=npart, sort=int(rng.integers(0, 2)),
                           N=N, offk=offk, J=rng.integers(0, 65, (N, 3)).tolist(), w8=[int(v) for v in rng.integers(0, 17, N)],
                           wrap=int(rng.integers(0, 2))))
+        if cases[-1]['wrap'] and k % 2:
+            # wrap=True is the mode that accepts particles outside [0, Box): up to one box on either side
+            cases[-1]['J'] = rng.integers(-64, 129, (N, 3)).tolist()
     return cases
 
 
